@@ -1142,3 +1142,115 @@ def same_file_family(F, f, limit=120):
                 if n and n in F.fns and n not in seen and F.fns[n].file == f.file and len(F.fns[n].blocks) < limit:
                     todo.append(n)
     return out
+
+
+# ---------------------------------------------------------------------------------------------------------------
+# boolean assume-and-propagate: blocks reachable when some locals (parameters) hold known booleans
+# ---------------------------------------------------------------------------------------------------------------
+def reachable_under_bools(f, init, start=0):
+    """Blocks of f reachable from `start` when the locals in `init` (local -> bool) hold those values on entry.
+    Booleans are propagated through copies, `!`, `|`, `&`; a bool switch on a known value follows one edge only."""
+    seen = set()
+    todo = [(start, tuple(sorted(init.items())))]
+    out = set()
+    succs = f.succs()
+    while todo:
+        bi, env = todo.pop()
+        if (bi, env) in seen:
+            continue
+        seen.add((bi, env))
+        out.add(bi)
+        e = dict(env)
+        for st in f.stmts(bi):
+            if st["s"] != "assign" or st["d"]["p"]:
+                continue
+            dl = st["d"]["l"]
+            rv = st["rv"]
+            val = None
+            if rv["r"] == "use":
+                if rv["o"].get("c") in ("true", "false"):
+                    val = rv["o"]["c"] == "true"
+                else:
+                    pl = op_place(rv["o"])
+                    if pl is not None and not pl["p"]:
+                        val = e.get(pl["l"])
+            elif rv["r"] == "un" and rv.get("op") == "Not":
+                pl = op_place(rv["o"])
+                v = e.get(pl["l"]) if pl is not None and not pl["p"] else None
+                val = (not v) if v is not None else None
+            elif rv["r"] == "bin" and rv.get("op") in ("BitOr", "BitAnd"):
+                pa, pb = op_place(rv["a"]), op_place(rv["b"])
+                va = e.get(pa["l"]) if pa is not None and not pa["p"] else None
+                vb = e.get(pb["l"]) if pb is not None and not pb["p"] else None
+                if rv["op"] == "BitOr":
+                    val = True if (va or vb) else (False if (va is False and vb is False) else None)
+                else:
+                    val = False if (va is False or vb is False) else (True if (va and vb) else None)
+            if val is None:
+                e.pop(dl, None)
+            else:
+                e[dl] = val
+        t = f.term(bi)
+        succ = succs[bi]
+        if t["t"] == "switch" and t.get("ty") == "bool":
+            pl = op_place(t["on"])
+            v = e.get(pl["l"]) if pl is not None and not pl["p"] else None
+            if v is not None:
+                succ = [t["otherwise"]] if v else [x for val2, x in t["targets"] if val2 == "0"]
+        elif t["t"] in ("call", "tailcall") and not t["d"]["p"]:
+            e.pop(t["d"]["l"], None)
+        env2 = tuple(sorted(e.items()))
+        for s2 in succ:
+            todo.append((s2, env2))
+    return out
+
+
+def region_names(F, f, blocks, depth=3, _seen=None):
+    """Names a region of f can put into the generated code: literal identifiers pushed by quote!, and exact string
+    constants (format_ident! sources), following calls into same-file functions; a callee that receives constant
+    booleans is read under those values only."""
+    _seen = _seen if _seen is not None else set()
+    names = set()
+    for (bi, kind, txt, _ln) in quote_token_events(f):
+        if kind == "ident" and txt and bi in blocks:
+            names.add(txt)
+    for bi, v in all_string_constants(f):
+        if bi in blocks:
+            names.add(v)
+    if depth <= 0:
+        return names
+    for bi in sorted(blocks):
+        t = f.term(bi)
+        if t["t"] not in ("call", "tailcall"):
+            continue
+        cn = callee_name(t)
+        g = F.fns.get(cn) if cn else None
+        if g is None or g.file != f.file or g.path == f.path:
+            continue
+        init = {}
+        for i, o in enumerate(t["args"]):
+            c = o.get("c") if isinstance(o, dict) else None
+            if c in ("true", "false"):
+                init[i + 1] = (c == "true")
+            else:
+                pl = op_place(o)
+                if pl is not None and not pl["p"]:
+                    d = f.single_def(pl["l"])
+                    if d and d[2] == "assign" and d[3]["r"] == "use" and d[3]["o"].get("c") in ("true", "false"):
+                        init[i + 1] = d[3]["o"]["c"] == "true"
+        key = (g.path, tuple(sorted(init.items())))
+        if key in _seen:
+            continue
+        _seen.add(key)
+        gb = reachable_under_bools(g, init) if init else set(range(len(g.blocks)))
+        names |= region_names(F, g, gb, depth - 1, _seen)
+    # closures built inside the region run as part of it
+    for bi in sorted(blocks):
+        for st in f.stmts(bi):
+            if st["s"] == "assign" and st["rv"]["r"] == "agg" and st["rv"].get("def") in F.fns \
+                    and st["rv"]["def"].startswith(f.path + "::{"):
+                c = F.fns[st["rv"]["def"]]
+                if (c.path, ()) not in _seen:
+                    _seen.add((c.path, ()))
+                    names |= region_names(F, c, set(range(len(c.blocks))), depth, _seen)
+    return names
